@@ -96,6 +96,7 @@ func runC19(c *vkit.Ctx, i int, h *History) {
 	s := NewSess("c19")
 	defer s.Close()
 	s.ShareConfigs = i%2 == 0
+	s.ZeroConfigs = i%4 == 1
 	if s.ShareConfigs {
 		c.Count("histories_through_shared_config_objects", 1)
 	}
